@@ -126,11 +126,17 @@ Proof.
   exact (proj2 (precedence_lemma pf schema f tokens es P) cfg H n kd d K G).
 Qed.
 
+(* a project without config.yml: every run of any sequence uses the defaults overlaid by its own line only *)
+Theorem schema_history_independent : forall pf runs k es, nth_error runs k = Some es ->
+  nth_error (run_seq pf schema None runs) k = Some (effective pf schema (fun _ => None) es).
+Proof. intros. apply history_nofile_lemma; [exact schema_names_nodup | assumption]. Qed.
+
 Print Assumptions schema_names_nodup.
 Print Assumptions schema_yaml_key_is_field_name.
 Print Assumptions schema_kinds_supported.
 Print Assumptions schema_every_field_has_kind_and_default.
 Print Assumptions schema_precedence.
+Print Assumptions schema_history_independent.
 """)
     # run.go:37-43 still splits the tokens exactly as modelled (the statements cannot be called separately)
     src = open(os.path.join(REPO, "hermes", "run.go")).read()
@@ -140,7 +146,7 @@ Print Assumptions schema_precedence.
 
 
 GEN_THEOREMS = ["schema_names_nodup", "schema_yaml_key_is_field_name", "schema_kinds_supported",
-                "schema_every_field_has_kind_and_default", "schema_precedence"]
+                "schema_every_field_has_kind_and_default", "schema_precedence", "schema_history_independent"]
 
 
 def gen_proofs(ctx):
@@ -176,7 +182,7 @@ def _run(ctx):
     vh = ctx.harness()
     d = os.path.join(ctx.work, "c14")
     os.makedirs(d, exist_ok=True)
-    n = 2500 if ctx.thorough else 350
+    n = 2500 if ctx.thorough else 250
     p = subprocess.run([vh, "c14", "cases", "-seed", str(ctx.seed), "-n", str(n), "-dir", d],
                        stdout=subprocess.PIPE, stderr=subprocess.PIPE, text=True, timeout=1800)
     shutil.rmtree(d, ignore_errors=True)
@@ -207,7 +213,9 @@ def correspond(ctx):
         toks = "[%s]" % "; ".join(_q(t) for t in (k["tokens"] or []))
         pf = "[%s]" % "; ".join("(%s, %s)" % (_q(s), ("Some %s%%Z" % b) if b != "" else "None") for s, b in sorted(k["pf"].items()))
         obs = "None" if k["fatal"] else "(Some [%s])" % "; ".join("(%s, %s)" % (_q(n), _val(v)) for n, v in (k["diff"] or []))
-        terms.append("(mk_case %s %s %s %s %s)" % (_q(k["root"]), file_, toks, pf, obs))
+        hist = "[%s]" % "; ".join("[%s]" % "; ".join(_q(t) for t in h) for h in (k.get("hist") or []))
+        terms.append("(mk_case %s %s %s %s %s %s %s)" % (_q(k["root"]), "true" if k["hasfile"] else "false", file_, hist, toks, pf, obs))
+        c.bump("kind:" + k.get("kind", "random"))
         seen.add((file_, toks))
         c.bump("fatal" if k["fatal"] else "ok")
         c.bump("tokens:%02d" % min(len(k["tokens"] or []), 10))
@@ -233,7 +241,7 @@ def correspond(ctx):
         elif m.group(1).strip() != "[]":
             idx = [int(x) for x in re.findall(r"\d+", m.group(1))]
             c.mismatches.append({"kind": "config", "what": "ConfigModel.read_config and the real readConfig differ",
-                                 "cases": [{"line": " ".join(cases[i]["tokens"] or []), "file": cases[i]["file"], "observed": "process ended" if cases[i]["fatal"] else cases[i]["diff"]}
+                                 "cases": [{"line": " ".join(cases[i]["tokens"] or []), "file": cases[i]["file"], "earlier_lines": cases[i].get("hist"), "observed": "process ended" if cases[i]["fatal"] else cases[i]["diff"]}
                                            for i in idx[:10]]})
     return c
 
@@ -295,15 +303,78 @@ def _whole_runs(ctx):
     return fails
 
 
+def _seq_runs(ctx):
+    """projects WITHOUT config.yml, whole runs of the real simulator: line A (with overrides) then line B (without them),
+    in the same session and as a later process; B must run exactly as on a fresh project, and the generated config.yml must
+    be the rendering of the defaults"""
+    h2g = ctx.repo_bin("src/hermes2go", "hermes2go")
+    vh = ctx.harness()
+    ref = os.path.join(ctx.work, "default_rendering.yml")
+    subprocess.run([vh, "c14", "defaultyaml", ref], stdout=subprocess.PIPE, stderr=subprocess.STDOUT, timeout=120)
+    want = open(ref).read() if os.path.exists(ref) else None
+    need = ("Dateformat=3 CropFileFormat=csv WeatherRootFolder=./weather/ WeatherNoneValue=999.9 OutputIntervall=1 AnnualOutputDate=1031 "
+            "AutoSowingHarvest=0 AutoFertilization=0 AutoHarvest=0 EndDate=12311983")
+    base = "project=ex1 WeatherFolder=historical soilId=075 fcode=109_120 plotNr=10001 Altitude=73 Latitude=52.6732 poligonID=29872 " + need
+    A = base + " resultfolder=RESULT/a ResultFileExt=xyz NDeposition=90 LeachingDepth=9 AutoIrrigation=0"
+    B = base + " resultfolder=RESULT/b"
+
+    def scenario(name):
+        ex = os.path.join(ctx.work, "seq_" + name)
+        shutil.copytree(os.path.join(REPO, "examples"), ex)
+        os.remove(os.path.join(ex, "project", "ex1", "config.yml"))
+        batches = {"same-session": [[A, B]], "later-process": [[A], [B]], "fresh": [[B]]}[name]
+        tail = ""
+        for i, lines in enumerate(batches):
+            bf = os.path.join(ex, "seq%d_batch.txt" % i)
+            with open(bf, "w") as fh:
+                fh.write("".join(l + "\n" for l in lines))
+            p = subprocess.run([h2g, "-module", "batch", "-concurrent", "1", "-batch", bf], cwd=ex, stdout=subprocess.PIPE, stderr=subprocess.STDOUT, text=True, timeout=600)
+            tail += p.stdout[-300:]
+        out = {"tail": tail, "results": {}}
+        for d in ("a", "b"):
+            rd = os.path.join(ex, "RESULT", d)
+            out["results"][d] = {f: open(os.path.join(rd, f), errors="replace").read() for f in sorted(os.listdir(rd))} if os.path.isdir(rd) else {}
+        cf = os.path.join(ex, "project", "ex1", "config.yml")
+        out["config"] = open(cf).read() if os.path.exists(cf) else None
+        return name, out
+
+    with ThreadPoolExecutor(max_workers=3) as exr:
+        res = dict(exr.map(scenario, ["same-session", "later-process", "fresh"]))
+    fails = []
+    fresh = res["fresh"]
+    if not fresh["results"]["b"]:
+        fails.append(Fail(key="sequence fresh-run", what="line B on a project without config.yml produced no results", line=B, tail=fresh["tail"]))
+    for name in ("same-session", "later-process", "fresh"):
+        r = res[name]
+        if want is not None and r["config"] != want:
+            gen = [l for l in (r["config"] or "").split("\n") if l not in want.split("\n")]
+            fails.append(Fail(key="generated-config %s" % name, what="config.yml generated for a project without one is not the rendering of the defaults; "
+                              "differing lines: %s" % gen[:8], first_line=A if name != "fresh" else B))
+        if name == "fresh":
+            continue
+        rb = r["results"]["b"]
+        if sorted(f.rsplit(".", 1)[-1] for f in r["results"]["a"]) != ["xyz"] * 3:
+            fails.append(Fail(key="sequence %s line-A" % name, what="line A (ResultFileExt=xyz) produced %s" % sorted(r["results"]["a"]), line=A, tail=r["tail"]))
+        if rb != fresh["results"]["b"]:
+            diff = [f for f in set(rb) | set(fresh["results"]["b"]) if rb.get(f) != fresh["results"]["b"].get(f)]
+            fails.append(Fail(key="sequence %s history-dependence" % name,
+                              what="line B run after line A (%s, project without config.yml) does not give the results of line B on a fresh project: files %s vs %s, differing %s — "
+                                   "the configuration of a run must be the defaults overlaid by its own line only" % (name, sorted(rb), sorted(fresh["results"]["b"]), sorted(diff)[:6]),
+                              line_A=A, line_B=B, generated_config_excerpt=[l for l in (r["config"] or "").split("\n") if re.match(r"(ResultFileExt|NDeposition|LeachingDepth|AutoIrrigation):", l)]))
+    ctx.extra["sequence_scenarios"] = len(res)
+    return fails
+
+
 def oracle(ctx, search):
     rc, out, err = _run(ctx)
     fails = []
     if rc != 0:
         fails.append(Fail(key="harness-crash", what="readConfig ended the process on a line without malformed numbers", stderr=err[-800:]))
-    for line in out.split("\n"):
-        if line.startswith("ORACLE "):
-            w = line.split()
-            fails.append(Fail(key=" ".join(w[1:5]), what=line[7:600]))
+    olines = [l for l in out.split("\n") if l.startswith("ORACLE ")]
+    olines.sort(key=lambda l: 0 if " kind=sweep " in l else 1)       # the one-key replays first
+    for line in olines:
+        w = line.split()
+        fails.append(Fail(key=" ".join(w[1:3] if w[1] == "generated-config" else w[1:5]), what=line[7:700]))
     # the same arguments in another order: identical real results
     groups = {}
     for k in _cache.get("cases") or [json.loads(l) for l in out.split("\n") if l.startswith("{")]:
@@ -318,7 +389,7 @@ def oracle(ctx, search):
                     fails.append(Fail(key="order group", what="permuted arguments give a different configuration",
                                       line_a=" ".join(ks[0]["tokens"]), line_b=" ".join(k["tokens"]), a=ks[0]["diff"], b=k["diff"]))
     ctx.extra["oracle_permutation_groups"] = ngroups
-    fails += _whole_runs(ctx)
+    fails = _seq_runs(ctx) + _whole_runs(ctx) + fails
     return fails[:50]
 
 
